@@ -296,6 +296,7 @@ def join_ty(a, b):
     if isinstance(a, TOpt): return TOpt(join_ty(a.inner, b))
     if isinstance(b, TOpt): return TOpt(join_ty(a, b.inner))
     if a is TBool and b is TInt or a is TInt and b is TBool: return TInt
+    if (a is TFloat and b in (TInt, TBool)) or (b is TFloat and a in (TInt, TBool)): return TFloat
     if isinstance(a, TEnum) and a.intvalued and b is TInt: return TInt
     if isinstance(b, TEnum) and b.intvalued and a is TInt: return TInt
     if isinstance(a, TRef) and a.universal and isinstance(b, TRef): return a
@@ -343,6 +344,7 @@ def coerce(v, ty):
     if isinstance(ty, TRef) and ty.universal and v.ty in (TStr, TInt, TBool):
         return V(ty, box_term(v))
     if ty is TInt and v.ty is TBool: return V(TInt, z3.If(v.t, z3.IntVal(1), z3.IntVal(0)))
+    if ty is TFloat and v.ty in (TInt, TBool): return V(TFloat, z3.ToReal(coerce(v, TInt).t))
     if ty is TInt and v.ty is TFlags: return V(TInt, z3.BV2Int(v.t, False))
     if ty is TFlags and v.ty is TInt: return V(TFlags, z3.Int2BV(v.t, 64))
     if ty is TInt and isinstance(v.ty, TEnum) and v.ty.intvalued: return V(TInt, v.ty.value_term(v.t))
